@@ -340,7 +340,8 @@ def subprocess_history(mon, rng, case):
     from ..lab.subproc import Project
     proj = Project(case["program"])
     try:
-        r1 = proj.run(case["args"] + ["-f", "rerun", "-o", "rerun.txt", "-f", "plain"])
+        envname = RB.pick_environment(rng, mon)
+        r1 = proj.run(case["args"] + ["-f", "rerun", "-o", "rerun.txt", "-f", "plain"], environment=envname)
         if r1.get("timeout"):
             mon.note("subprocess watchdog fired (inconclusive case)")
             return
@@ -360,7 +361,7 @@ def subprocess_history(mon, rng, case):
         else:
             extra2 = ["@rerun.txt", "-f", "plain"]
         mon.seen("rerun_loop_shape", loop)
-        r2 = proj.run(args2 + extra2)
+        r2 = proj.run(args2 + extra2, environment=envname)
         if r2.get("timeout"):
             mon.note("subprocess watchdog fired (inconclusive case)")
             return
